@@ -3,3 +3,5 @@ package harness
 import "regexp"
 
 func regexpMustCompile(s string) *regexp.Regexp { return regexp.MustCompile(s) }
+
+func jsonUnmarshal(s string, into interface{}) error { return jsonUnmarshalBytes([]byte(s), into) }
